@@ -17,6 +17,9 @@
 (*  <<"step", table>>   table after one more merge of ordered covering     *)
 (*      (driven with target_length = current length - 1 and the aliases    *)
 (*      returned by the previous step)                                     *)
+(*  <<"expand", table>> / <<"subset", other, result>>  rig's expand_entries *)
+(*      and table_is_subset_of on the original table (beyond C04: judged   *)
+(*      as EXTRA, see harness/core.py validate_beyond)                     *)
 (* State st: length of the previous step's table (steps must shrink).      *)
 (***************************************************************************)
 EXTENDS RoutingTable, Json, IOUtils
@@ -48,6 +51,20 @@ Checks(e) ==
            FailHonest  |-> target # <<>> => e[6] > target[1],      \* it really did not fit ...
            FailReportsBest |-> e[6] = e[7]]                          \* ... and reports the size reached
         ELSE [OnlyDocumentedError |-> FALSE]
+    \* ---- beyond C04: rig's own table utilities, judged with the same first-match semantics
+    [] e[1] = "expand" ->          \* <<"expand", result>>: list(expand_entries(orig))
+        LET o == Low(Tr.orig)  x == Low(e[2]) IN
+        [FixedBits |-> FixedBits(Tr.orig, e[2]),
+         ExpandOrthogonal |-> Orthogonal(x),
+         ExpandSameFirstMatch |-> \A k \in 0..(Pow2(TW) - 1) :
+              LET i == FirstMatch(o, k)  j == FirstMatch(x, k) IN
+              (i = 0 <=> j = 0) /\ (i # 0 => x[j].route = o[i].route /\ x[j].srcs = o[i].srcs)]
+    [] e[1] = "subset" ->          \* <<"subset", other, result>>: table_is_subset_of(orig, other) = result (0/1)
+        LET a == Low(Tr.orig)  b == Low(e[2])
+            holds == \A k \in 0..(Pow2(TW) - 1) :
+                        LET i == FirstMatch(a, k)  j == FirstMatch(b, k) IN
+                        i # 0 => IF j # 0 THEN b[j].route = a[i].route ELSE Defaultable(a[i])
+        IN [SubsetAgrees |-> (e[3] = 1) <=> holds]
     [] e[1] = "step" ->
         [FixedBits  |-> FixedBits(Tr.orig, e[2]),
          Equivalent |-> Equivalent(Low(Tr.orig), Low(e[2]), TW),
